@@ -7,6 +7,9 @@ CONSTANTS
   DropChoices <- DropsUpTo4
   H = 1
   PStalls = {0}
+  ConsumerStyles = {"block", "poll"}
+  StylesEverywhere = FALSE
+  PollingHelper = FALSE
   Observe = TRUE
   SkipIdxStep = FALSE
   CStalls = {0}
